@@ -507,6 +507,12 @@ func (vc *VC) lvalue(fr *frame, st *State, lhs ast.Expr, define bool) func(Val) 
 		sel, ok := fr.ctx.info.Selections[l]
 		if ok && sel.Kind() == types.FieldVal {
 			path := sel.Index()
+			if ep, ok := vc.elemPtrOf(fr, st, l.X); ok && len(path) == 1 {
+				f := structOf(ep.Elem).Field(path[0])
+				return func(v Val) {
+					vc.storeElemPath(st, ep.Key+"."+f.Name(), f.Type(), ep.Base, ep.Idx, v, l.Pos())
+				}
+			}
 			if ref, t, ok := vc.selBase(fr, st, l.X); ok {
 				if r, ok := vc.walkRef(st, ref, t, path[:len(path)-1], l.Pos()); ok {
 					owner := vc.ownerAt(t, path[:len(path)-1])
